@@ -14,7 +14,7 @@ KINDS = {
             "OkWithoutResponse", "Panic"},
     "C02": {"MutualExclusion", "ClaimNotFree", "Lifecycle", "WriteWhileViewed", "ViewOverlap", "Panic"},
     "C03": {"Leak", "LeakAfterProbe", "Panic"},
-    "C06": {"TooManyTransmissions", "TransmissionCount", "RetransmitDiffers", "OkWithoutResponse", "ResponseLostToDeadline",
+    "C06": {"DeadlinesBeyondBudget", "TooManyTransmissions", "TransmissionCount", "RetransmitDiffers", "OkWithoutResponse", "ResponseLostToDeadline",
             "Misroute", "ViewChanged", "MutualExclusion", "WriteWhileViewed", "ViewOverlap",
             "ClaimNotFree", "Leak", "LeakAfterProbe", "Panic", "Stuck"},
 }
